@@ -382,7 +382,9 @@ func genC12Eval(t *rapid.T) c12EvalCase {
 	}
 	c.LateEdits = rapid.SliceOfN(rapid.IntRange(0, nb-1), 0, 6).Draw(t, "lateEdits")
 	qgen := rapid.Custom(func(t *rapid.T) sQuery {
-		person := rapid.SampledFrom([]string{"alice", "ALICE", "Anderson", "bob", "rené", "descartes", "ac", "builder", "nobody", "e"})
+		// "#id<k>" / "#ID<k>" stand for a prefix of the id of identity k as typed in lower / upper case (ids are hex,
+		// the documentation says person values match id prefixes case-insensitively); resolved when the case runs
+		person := rapid.SampledFrom([]string{"alice", "ALICE", "Anderson", "bob", "rené", "descartes", "ac", "builder", "nobody", "e", "#id0", "#ID0", "#ID1", "#id2", "#ID2"})
 		q := sQuery{Order: []int{0}}
 		// one to three qualifier kinds per query, so that results are neither always empty nor always everything
 		kinds := rapid.SliceOfNDistinct(rapid.IntRange(0, 8), 1, 3, func(x int) int { return x }).Draw(t, "kinds")
@@ -618,7 +620,29 @@ func runC12Eval(tb report.TB, rep *report.Reporter, c c12EvalCase) {
 		return out, nil
 	}
 	partial := 0
+	resolvePerson := func(vals []string) []string {
+		out := append([]string(nil), vals...)
+		for k, v := range out {
+			if strings.HasPrefix(v, "#id") || strings.HasPrefix(v, "#ID") {
+				var n int
+				fmt.Sscan(v[3:], &n)
+				// a prefix that holds at least one hex letter, so that the two spellings differ
+				id := string(authors[n%len(authors)].Id())
+				l := 8
+				for l < 20 && strings.ToUpper(id[:l]) == id[:l] {
+					l++
+				}
+				if strings.HasPrefix(v, "#ID") {
+					out[k] = strings.ToUpper(id[:l])
+				} else {
+					out[k] = id[:l]
+				}
+			}
+		}
+		return out
+	}
 	for qi, sq := range c.Queries {
+		sq.Author, sq.Actor, sq.Participant = resolvePerson(sq.Author), resolvePerson(sq.Actor), resolvePerson(sq.Participant)
 		text := sq.render()
 		got, err := run(text)
 		if err != nil {
